@@ -15,8 +15,14 @@
                       topo.AddPeers(p)
    A received list whose dials complete while the loop is still running is the same code path as
    several shorter lists interleaved with ConnectDone events, so arbitrary event lists cover every
-   schedule of the real goroutines at this granularity.  The worker pool bound (checkWorkers) only
-   delays dials; it is not modelled and the correspondence keeps fewer dials in flight than that.
+   schedule of the list handler and its workers at this granularity.  The worker pool bound
+   (checkWorkers) only delays dials; it is not modelled and the correspondence keeps fewer dials in
+   flight than that.
+   Connected is NOT one critical section in the code: the [Connected] event is a call that runs
+   without interruption; overlapping calls are covered by the step model at the end of this file
+   (SAdd / SReadProviders / SAnnounce / SReadBidders / SFanout with per-call snapshots), of which
+   the atomic event is the sequential composition.  add / Disconnected / AddPeers are single
+   critical sections, so the view theorems are not affected.
 
    External answers are carried by the events: address-book lookups as a table (a peer that is
    not in the table has no record: GetPeerInfo fails), announcement faults as a table (recipient
@@ -194,3 +200,120 @@ Definition adds_of (s : state) (e : event) : list peer :=
   | ConnectDone u (Some p) => if in_flight u s then [p] else []
   | _ => []
   end.
+
+(* --- Connected at the granularity of its critical sections ------------------------------------
+   The Go body of Connected is not one critical section: add(p) takes and releases the lock;
+   GetPeers(provider) takes a read lock later; the address-book lookups and the synchronous
+   BroadcastPeers to the newcomer follow; then GetPeers(bidder), the newcomer's own lookup and one
+   BroadcastPeers per bidder of that snapshot.  Connected runs concurrently with other Connected /
+   Disconnected / AddPeers calls.  The step model below gives every call its own locals (the two
+   snapshots) and lets the steps of several calls interleave arbitrarily with each other and with
+   the atomic events; the atomic [Connected] event above is the sequential composition
+   (proofs: seq_connected).  Steps that are not enabled (unknown call, wrong stage) are no-ops. *)
+Record call := mkCall {
+  k_peer : peer; k_lk : list (peer * bytes); k_ann : list (peer * N);
+  k_pc : N;                 (* 0 added; 1 providers read; 2 newcomer told; 3 bidders read; 4 returned early *)
+  k_provs : list peer;      (* snapshot GetPeers(provider) *)
+  k_fan : list peer }.      (* bidders of the snapshot GetPeers(bidder) still to be told *)
+
+Record sstate := mkS { base : state; calls : list (N * call) }.
+Definition sinit : sstate := mkS init [].
+
+Inductive sevent :=
+| SAdd (c : N) (p : peer) (lk : list (peer * bytes)) (ann : list (peer * N))   (* call c starts: t.add(p) *)
+| SReadProviders (c : N)          (* peersToBroadcast := GetPeers(provider) *)
+| SAnnounce (c : N)               (* lookups; BroadcastPeers(p, underlays) when non-empty *)
+| SReadBidders (c : N)            (* if provider: GetPeers(bidder); own lookup (failure: return) *)
+| SFanout (c : N)                 (* BroadcastPeers(next bidder of the snapshot, [p's record]) *)
+| SOther (e : event).             (* any atomic event of the model above *)
+
+Fixpoint find_call (c : N) (cs : list (N * call)) : option call :=
+  match cs with
+  | [] => None
+  | (d, k) :: r => if d =? c then Some k else find_call c r
+  end.
+Fixpoint set_call (c : N) (k : call) (cs : list (N * call)) : list (N * call) :=
+  match cs with
+  | [] => []
+  | (d, k0) :: r => if d =? c then (d, k) :: r else (d, k0) :: set_call c k r
+  end.
+
+Definition call_done (k : call) : bool :=
+  (k_pc k =? 4) || ((k_pc k =? 3) && match k_fan k with [] => true | _ => false end)
+  || ((k_pc k =? 2) && negb (p_role (k_peer k) =? ROLE_PROVIDER)%Z).
+
+Definition sstep (s : sstate) (e : sevent) : sstate * list effect :=
+  match e with
+  | SAdd c p lk ann =>
+      match find_call c (calls s) with
+      | None => (mkS (add p (base s)) ((c, mkCall p lk ann 0 [] []) :: calls s), [])
+      | Some _ => (s, [])
+      end
+  | SReadProviders c =>
+      match find_call c (calls s) with
+      | Some k => if k_pc k =? 0 then
+                    (mkS (base s) (set_call c (mkCall (k_peer k) (k_lk k) (k_ann k) 1
+                                                      (get_peers ROLE_PROVIDER (base s)) []) (calls s)), [])
+                  else (s, [])
+      | None => (s, [])
+      end
+  | SAnnounce c =>
+      match find_call c (calls s) with
+      | Some k => if k_pc k =? 1 then
+                    (mkS (base s) (set_call c (mkCall (k_peer k) (k_lk k) (k_ann k) 2 (k_provs k) []) (calls s)),
+                     match records_for (k_peer k) (k_lk k) (k_provs k) with
+                     | [] => []
+                     | recs => broadcast (k_ann k) (k_peer k) recs
+                     end)
+                  else (s, [])
+      | None => (s, [])
+      end
+  | SReadBidders c =>
+      match find_call c (calls s) with
+      | Some k => if k_pc k =? 2 then
+                    if (p_role (k_peer k) =? ROLE_PROVIDER)%Z then
+                      match tbl_get (k_lk k) (k_peer k) with
+                      | Some _ => (mkS (base s) (set_call c (mkCall (k_peer k) (k_lk k) (k_ann k) 3 (k_provs k)
+                                                               (get_peers ROLE_BIDDER (base s))) (calls s)), [])
+                      | None => (mkS (base s) (set_call c (mkCall (k_peer k) (k_lk k) (k_ann k) 4 (k_provs k) []) (calls s)), [])
+                      end
+                    else (s, [])
+                  else (s, [])
+      | None => (s, [])
+      end
+  | SFanout c =>
+      match find_call c (calls s) with
+      | Some k => if k_pc k =? 3 then
+                    match k_fan k, tbl_get (k_lk k) (k_peer k) with
+                    | b :: rest, Some u =>
+                        (mkS (base s) (set_call c (mkCall (k_peer k) (k_lk k) (k_ann k) 3 (k_provs k) rest) (calls s)),
+                         broadcast (k_ann k) b [(p_addr (k_peer k), u)])
+                    | _, _ => (s, [])
+                    end
+                  else (s, [])
+      | None => (s, [])
+      end
+  | SOther e => (mkS (fst (step (base s) e)) (calls s), snd (step (base s) e))
+  end.
+
+Definition srun_from (s : sstate) (l : list sevent) : sstate := fold_left (fun acc e => fst (sstep acc e)) l s.
+Definition srun (l : list sevent) : sstate := srun_from sinit l.
+
+Definition call_of (e : sevent) : option N :=
+  match e with
+  | SAdd c _ _ _ | SReadProviders c | SAnnounce c | SReadBidders c | SFanout c => Some c
+  | SOther _ => None
+  end.
+Definition is_call (c : N) (e : sevent) : bool := match call_of e with Some d => d =? c | None => false end.
+
+(* effects of the steps of call c in a step history *)
+Fixpoint call_effects_from (s : sstate) (c : N) (l : list sevent) : list effect :=
+  match l with
+  | [] => []
+  | e :: r => (if is_call c e then snd (sstep s e) else []) ++ call_effects_from (fst (sstep s e)) c r
+  end.
+Definition call_effects (c : N) (l : list sevent) : list effect := call_effects_from sinit c l.
+
+(* the whole body of one call, run without interruption: n = number of bidders in the snapshot *)
+Definition seq_call (c : N) (p : peer) (lk : list (peer * bytes)) (ann : list (peer * N)) (n : nat) : list sevent :=
+  [SAdd c p lk ann; SReadProviders c; SAnnounce c; SReadBidders c] ++ repeat (SFanout c) n.
